@@ -655,8 +655,8 @@ class World:
         return value
 
     # -- events / observation ---------------------------------------------------------------------
-    def emit(self, kind, **fields):
-        fields['k'] = kind
+    def emit(self, _kind, **fields):
+        fields['k'] = _kind
         fields['t'] = self.now
         if self.keep_events:
             self.events.append(fields)
